@@ -677,7 +677,7 @@ impl<'r> Renderer<'r> {
         // whitespace between tokens; possibly a comment
         if self.style.comments && self.rng.chance(1, 12) {
             let c = if self.style.nonascii_comments && self.rng.bool() {
-                *self.rng.pick(&["# généré automatiquement ✓", "# 版图 库", "# Ünïcödé — ok", "# 😀 emoji; MACRO END", "# µm"])
+                *self.rng.pick(&["# généré automatiquement ✓", "# 版图 库", "# Ünïcödé — ok", "# 😀 emoji; MACRO END", "# µm", "#µm", "#単位セル", "#😀", "#é", "#\u{a0}x"])
             } else {
                 *self.rng.pick(&["# comment", "# END LIBRARY", "#", "# MACRO x ; \"quoted", "#\ttab"])
             };
